@@ -77,6 +77,7 @@ class World:
         self.classes = self.built.classes
         self.insts = {}  # op id -> instance
         self.retained = []  # (op id, [arg objects]) for constructor calls
+        self.retained_kw = []  # (op id, class role, {attribute: arg object})
         self.next_id = 0
 
     # -- naming -----------------------------------------------------------
@@ -213,6 +214,7 @@ class World:
         """Register results of an executed op into the world."""
         if op["op"] == "new":
             self.retained.append((op["id"], list(prep.args) + list(prep.kw.values())))
+            self.retained_kw.append((op["id"], op.get("cls"), dict(prep.kw)))
         if out.status == "ok" and is_spec_instance(out.value) and self.role_of(out.value) in ("host", "sub"):
             if not any(v is out.value for v in self.insts.values()):
                 self.insts[op["id"]] = out.value
@@ -385,13 +387,21 @@ class OpGen:
         args = []
         if which == "with":
             m = f"with_{name}"
-            if kind == "leaf" and s.chance(0.6):
-                form = s.choice(["kw", "val_kw", "dict"])
+            if kind == "leaf" and str(a.get("prepare", "")).startswith("lookup_") and s.chance(0.4):
+                # a name the attribute's preparer resolves to an object the receiver already holds + nested keywords
+                args.append("@peer")
+                kw.update(self._leaf_kw(bad))
+            elif kind == "leaf" and s.chance(0.6):
+                form = s.choice(["kw", "val_kw", "dict", "dict_kw"])
                 if form == "kw":
                     kw.update(self._leaf_kw(bad))
                 elif form == "val_kw":
                     args.append(self.good("leaf"))
                     kw.update(self._leaf_kw(bad))
+                elif form == "dict_kw":
+                    # constructor arguments as a dict AND keywords naming the same attribute: the keywords are applied last
+                    args.append(["dict", [["p", self.good("int")], ["q", self.good("str")]]])
+                    kw["p"] = s.choice(bad_values("int")) if bad else self.good("int")
                 else:
                     args.append(["dict", [[k, v] for k, v in self._leaf_kw(bad).items()]])
             elif s.chance(self.p["p_sentinel"]):
@@ -481,6 +491,7 @@ class OpGen:
         kind = a["kind"]
         fam = FAMILY[kind]
         ik = ITEM_KIND[kind]
+        scalar_item = ik in ("int", "optint")
         sing = a["item_name"]
         cur = _raw(inst, name)
         bad = s.chance(self.p["p_bad"])
@@ -513,7 +524,7 @@ class OpGen:
                 return good_item()
 
             if which == "with":
-                form = s.weighted([("append", 4), ("index", 3), ("insert", 2), ("kw", 2 if ik != "int" else 0),
+                form = s.weighted([("append", 4), ("index", 3), ("insert", 2), ("kw", 2 if not scalar_item else 0),
                                    ("key", 1.5 if ik == "kitem" else 0)])
                 if form == "append":
                     args.append(bad_item() if bad else good_item())
@@ -541,6 +552,8 @@ class OpGen:
                         kw.update(self._kitem_kw(bad, with_key=True))
                 else:  # bare key promoted to keyed item
                     args.append(s.choice(["a", "b", "c", "e", ""]) if not bad else 5)
+                    if a.get("prepare_item") == "id2key" and s.chance(0.5):
+                        args[-1] = s.choice([7, 3, 0])  # a numeric id the item preparer turns into a key
                     if s.chance(0.4):
                         kw.update(self._kitem_kw(False))
             elif which == "update":
@@ -552,7 +565,7 @@ class OpGen:
                     args.append(an_index(valid=not (bad and s.chance(0.5))))
                     if m_by == "true":
                         kw["_by_index"] = True
-                if ik != "int" and s.chance(0.6):
+                if not scalar_item and s.chance(0.6):
                     kw.update(self._leaf_kw(bad) if ik == "leaf" else self._kitem_kw(bad))
                     if s.chance(0.3):
                         args.append(good_item())
@@ -567,13 +580,13 @@ class OpGen:
                     args.append(an_index(valid=not (bad and s.chance(0.5))))
                     if m_by == "true":
                         kw["_by_index"] = True
-                if ik != "int" and s.chance(0.5):
+                if not scalar_item and s.chance(0.5):
                     kw["p" if ik == "leaf" else "v"] = ["fn", s.choice(BAD_FNS["int"] if bad else self.GOOD["int"])]
                 else:
                     args.append(bad_fn() if bad else good_fn())
             else:
                 m_by = s.weighted([("default", 3), ("true", 1), ("false", 1.5)])
-                if m_by == "false" or (m_by == "default" and ik != "int" and s.chance(0.5)):
+                if m_by == "false" or (m_by == "default" and not scalar_item and s.chance(0.5)):
                     args.append(an_existing_value() if not bad else good_item())
                     if m_by == "false":
                         kw["_by_index"] = False
@@ -594,10 +607,10 @@ class OpGen:
                 key = a_key(existing=s.chance(0.4))
                 if bad and s.chance(0.35):
                     key = s.choice([1, None, ["float", "0.5"]])
-                    args += [key, good_item() if ik == "int" or s.chance(0.6) else ["sent", "MISSING"]]
+                    args += [key, good_item() if scalar_item or s.chance(0.6) else ["sent", "MISSING"]]
                     if ik == "kitem":
                         args[1] = ["kitem", {"k": "a"}]
-                elif ik != "int" and s.chance(0.5):
+                elif not scalar_item and s.chance(0.5):
                     args.append(key)
                     kw.update(self._leaf_kw(bad) if ik == "leaf" else self._kitem_kw(bad, with_key=s.chance(0.5)))
                 else:
@@ -605,14 +618,14 @@ class OpGen:
             elif which == "update":
                 key = a_key(existing=not (bad and s.chance(0.5)))
                 args.append(key)
-                if ik != "int" and s.chance(0.6):
+                if not scalar_item and s.chance(0.6):
                     kw.update(self._leaf_kw(bad) if ik == "leaf" else self._kitem_kw(bad))
                 else:
                     args.append(bad_item() if bad else good_item())
             elif which == "transform":
                 key = a_key(existing=not (bad and s.chance(0.5)))
                 args.append(key)
-                if ik != "int" and s.chance(0.5):
+                if not scalar_item and s.chance(0.5):
                     kw["p" if ik == "leaf" else "v"] = ["fn", s.choice(BAD_FNS["int"] if bad else self.GOOD["int"])]
                 else:
                     args.append(bad_fn() if bad else good_fn())
@@ -647,6 +660,8 @@ class OpGen:
             if which == "with":
                 if kind == "kset" and s.chance(0.4):
                     args.append(s.choice(["a", "b", "e", ""]))
+                    if a.get("prepare_item") == "id2key" and s.chance(0.5):
+                        args[-1] = s.choice([7, 3, 0])
                     if s.chance(0.5):
                         kw.update(self._kitem_kw(bad))
                 elif kind == "kset" and s.chance(0.3):
